@@ -2,6 +2,9 @@
 // working tree with -tags verif) and records, per property, (a) operation lines for the
 // Lean model driver, (b) the implementation's canonicalised observation for each line,
 // (c) implementation-side oracle verdicts (the executable statement of the property).
+
+//go:debug x509negativeserial=1
+
 package main
 
 import (
